@@ -600,6 +600,36 @@ def run(ctx):
         "although grammar.txt says Test",
         "near-miss membership is decided for the canonical layout (one blank between tokens, 4 blanks per level); mutations never touch layout tokens",
     ]
+    # (d) statement nesting from indentation: TLC enumerates every skeleton of header / simple-statement / blank / comment
+    #     lines over a set of indentation columns (spec/Layout.tla, LayoutMC.tla) with the nesting the specification derives,
+    #     or "not a program"; each is written with spaces, with tabs and with CR LF and parsed by the real front end
+    if "d" in os.environ.get("C14_PARTS", "abcd"):
+        maxlines = 3 if ctx.quick else 4
+        cfg = "CONSTANT MaxLines = %d\nINIT Init\nNEXT Next\nINVARIANTS WellNested Emit\n" % maxlines
+        rl = ctx.tlc_ok("LayoutMC", "LayoutMC_gen.cfg", workers=8, timeout=3000, heap="8g", cfg_text=cfg)
+        sk = ctx.path("skeletons.ndjson")
+        nsk = 0
+        with open(sk, "w") as f:
+            for l in rl["out"].split("\n"):
+                if l.startswith('"L{'):
+                    f.write(l[2:-1].replace('\\"', '"') + "\n")
+                    nsk += 1
+        if nsk != rl["states"] - 1:
+            raise vlib.MachineryError("layout skeleton emission incomplete: %d of %d" % (nsk, rl["states"] - 1))
+        lo = ctx.path("layout.out")
+        ctx.vh(["c14-layout", "-in", sk, "-out", lo], timeout=3000)
+        lres = vlib.read_ndjson(lo)
+        if not lres[-1].get("summary") or lres[-1]["skeletons"] != nsk:
+            raise vlib.MachineryError("layout replay incomplete")
+        ctx.log("layout: %d indentation skeletons (<= %d lines) x 3 writings parsed, %d nest as programs, %d disagree" % (
+            nsk, maxlines, lres[-1]["nested"], lres[-1]["problems"]))
+        for rr in lres[:-1][:40]:
+            kind = "accepted" if rr["what"].startswith("accepted") else ("rejected" if rr["what"].startswith("rejected") else "nesting")
+            ctx.violation("layout:%s" % kind, "%s: %r" % (rr["what"], rr["text"]), {"layout": rr})
+        ctx.cov["layout_skeletons"] = nsk
+        ctx.cov["layout_texts"] = lres[-1]["texts"]
+        ctx.cov["evaluations"] = ctx.cov.get("evaluations", 0) + lres[-1]["texts"]
+
     return ctx.finish(
         rule="(a) syntax trees are enumerated by TLC (C14Gen: all pairs over the full operator alphabet, all triples over a reduced one, statement "
              "skeletons, pseudo-random deep derivations) and rendered by Grammar!Render; each tree is written under several seeded layouts and "
